@@ -254,13 +254,20 @@ fn partition(p: usize, sink: Sink<'_>) {
 fn force(backend: &str) {
     #[cfg(httparse_verif)]
     {
-        let id = match backend {
-            "avx2" => 1,
-            "sse42" => 2,
-            "scalar" => 3,
+        let which = match backend {
+            "avx2" => 0,
+            "sse42" => 1,
+            "scalar" => 2,
             _ => return,
         };
-        if id == 1 && !std::is_x86_feature_detected!("avx2") || id == 2 && !std::is_x86_feature_detected!("sse4.2") {
+        let id = match httparse::_verif::runtime_backend_ids() {
+            Some(ids) => ids[which],
+            None => {
+                eprintln!("this build variant has no runtime dispatch");
+                std::process::exit(3);
+            }
+        };
+        if which == 0 && !std::is_x86_feature_detected!("avx2") || which == 1 && !std::is_x86_feature_detected!("sse4.2") {
             eprintln!("backend {} is not supported by this CPU", backend);
             std::process::exit(3);
         }
